@@ -377,3 +377,37 @@ func LoadInput(path string) (string, error) {
 	}
 	return v.Replay.Input, nil
 }
+
+// Replay is the decoded content of a replay file.
+type Replay struct {
+	Scenario string
+	Config   map[string]string
+	Tape     []int
+	Seq      []int
+	Input    string
+}
+
+// LoadReplay reads a replay file written by Violation.
+func LoadReplay(path string) (*Replay, error) {
+	b, err := os.ReadFile(path)
+	if err != nil {
+		return nil, err
+	}
+	var v struct {
+		Replay struct {
+			Scenario string         `json:"scenario"`
+			Config   map[string]any `json:"config"`
+			Tape     []int          `json:"tape"`
+			Seq      []int          `json:"seq"`
+			Input    string         `json:"input"`
+		} `json:"replay"`
+	}
+	if err := json.Unmarshal(b, &v); err != nil {
+		return nil, err
+	}
+	r := &Replay{Scenario: v.Replay.Scenario, Tape: v.Replay.Tape, Seq: v.Replay.Seq, Input: v.Replay.Input, Config: map[string]string{}}
+	for k, x := range v.Replay.Config {
+		r.Config[k] = fmt.Sprint(x)
+	}
+	return r, nil
+}
